@@ -323,10 +323,23 @@ reg("C05", p_copy.c05, {"R-SHORT": 9, "R-ERR": 60, "R-WHO": 2}, ["r_short", "r_e
     not_decided="byte placement by the kernel; the zero-progress case (a 0 return inside the requested range arises only "
                 "from concurrent truncation); which errnos fall back is not a condition of the property.")
 
-NOT_APPLICABLE = {
-    "C19": "relation between returned integers and file bytes over kernel-supplied data (FIEMAP/SEEK_DATA) and all extent lists: "
-           "arithmetic/relational reasoning over runtime values; any shape rule would freeze today's source fragment (DESIGN.md section 6)",
-}
+import p_sparse
+
+reg("C19", p_sparse.c19, {"R-OWN": 4, "R-TABLE": 6, "R-ORDER": 1}, ["r_order"],
+    rule="map_extents: the push of each kernel-reported extent dominates the latch of the loop over the mapped extents; "
+         "start <- fe_logical, end <- fe_logical + fe_length. merge_extents: libfs::Extent is move-only (no Copy/Clone/Drop), "
+         "and every extent taken (loop item, pending `prev`) is pushed, kept pending or has its boundary merged on every "
+         "path to the latch/return; a merged extent's start/end are plain copies of input start/end; the pending extent is "
+         "pushed at the end. next_sparse_segments: returned offsets come only from SEEK_DATA/SEEK_HOLE answers or the file "
+         "length; the hole search starts at the data offset found.",
+    technique="ownership (linearity) of extent values over the CFG + provenance of range boundaries + dominance",
+    decided="coverage is never dropped by xcp's own code: every extent the kernel reports is forwarded, merging consumes "
+            "every input and begins/ends at input boundaries, segment offsets are the kernel's answers.",
+    not_decided="that the kernel's extents are ordered, non-overlapping and that bytes outside them read as zero (kernel "
+                "semantics); the adjacency test `p.end + 1` and FIEMAP paging termination (arithmetic over run-time values). "
+                "This is a narrow claim: the relation between the map and the file's bytes itself is not decided.")
+
+NOT_APPLICABLE = {}
 for _p in ["C01","C02","C03","C05","C06","C07","C08","C09","C10","C11","C12","C13","C14","C15","C16","C17","C18","C20"]:
   if _p not in PROPS:
     NOT_APPLICABLE.setdefault(_p, "check under construction in this session (rule family not yet armed); will be claimed per DESIGN.md section 4")
